@@ -476,6 +476,20 @@ func runSession(c *Case) {
 			b, term := s.bytesFor(st, c.ID*50+i)
 			if st.Cmd == "block" {
 				requested := false
+				if st.Variant == "wrongreq" && s.node.IsReady() {
+					// a request for some other block is outstanding when this block arrives
+					var other bitcoin.Hash32
+					copy(other[:], s.lastBlock[:])
+					other[0] ^= 0xff
+					if s.node.RequestBlock(coqfmt.QuietContext(), other,
+						func(ctx context.Context, h *wire.BlockHeader, n uint64, txs <-chan *wire.MsgTx) error {
+							for range txs {
+							}
+							return nil
+						}, func(context.Context) {}) == nil {
+						s.waitFor("getdata", 500*time.Millisecond)
+					}
+				}
 				if st.Variant == "requested" && s.node.IsReady() {
 					abort := st.Count%3 == 2
 					err := s.node.RequestBlock(coqfmt.QuietContext(), s.lastBlock,
@@ -892,8 +906,11 @@ func genSession(r *coqfmt.Rand, id int, profile string) Case {
 				st.Cmd = "tx"
 			case 6:
 				st.Cmd = "block"
-				if r.Chance(1, 2) {
+				switch r.Intn(4) {
+				case 0, 1:
 					st.Variant = "requested"
+				case 2:
+					st.Variant = "wrongreq"
 				}
 			case 7, 8:
 				st.Cmd = "foobar"
